@@ -4,6 +4,7 @@ package props
 // shared by the model-based properties C03, C04, C05, C06, C18, C20.
 
 import (
+	"os"
 	"fmt"
 	"reflect"
 	"strings"
@@ -101,6 +102,9 @@ type diffHooks struct {
 	beforeRequest func(i int, real *app.Session, m *model.Session)
 	// useDb: serve the application through resource.DbResource over a memdb
 	useDb bool
+	// usePo: serve templates and labels through resource.PoResource over generated
+	// gettext catalogues
+	usePo bool
 }
 
 // modelDiff serves the history on the real engine and on the model and compares.
@@ -113,6 +117,14 @@ func modelDiff(a *app.App, inputs []BS, mode app.Mode, asp diffAspects, hooks *d
 	defer cleanup()
 	shared := app.NewShared(a)
 	shared.UseDb = hooks != nil && hooks.useDb
+	if hooks != nil && hooks.usePo && !shared.UseDb {
+		dir := workDir()
+		defer os.RemoveAll(dir)
+		if err := shared.WritePo(dir); err != nil {
+			return nil, f, "cannot-write-catalogues"
+		}
+		shared.UsePo, shared.PoDir = true, dir
+	}
 	real := app.NewSession(shared, mode, storage)
 	m := model.New(a, mode.Kind == "persist")
 	seenNodes := map[string]int{}
